@@ -72,7 +72,7 @@ theorem min_sum_eq (val : Nat → Int) (s : Int) (parent t : Tree) (v : Int) :
 /-! ## Dendrogram.compute -/
 
 /-- a pixel is processed iff its value is *strictly* above the threshold -/
-theorem keep_pixel_strict (x thr : Int) : Gen.keep_pixel x thr = true ↔ thr < x := by
+theorem keep_pixel_strict (x thr : Int) (isFloat : Bool) : Gen.keep_pixel x thr isFloat = true ↔ thr < x := by
   simp only [Gen.keep_pixel]
   gen_arith
 
